@@ -18,6 +18,7 @@
 #include <signal.h>
 #include <pthread.h>
 #include <time.h>
+#include <sched.h>
 #include "qthread/qthread.h"
 #include "qt_atomics.h"
 
@@ -40,6 +41,7 @@ static void c08_spin(void)
         if (++spin_count > spin_limit) { spin_armed = 0; siglongjmp(spin_jb, 1); }
     } else if (spin_armed == 2) {          /* stress: leave once everything was consumed */
         if (stress_done) { spin_armed = 0; siglongjmp(spin_jb, 1); }
+        sched_yield();                     /* the machine is shared: a descheduled ticket holder must get the CPU */
     }
     __asm__ __volatile__ ("pause" ::: "memory");
 }
@@ -425,7 +427,34 @@ static aligned_t nchild(void *a)
     return 0;
 }
 
-static double now(void) { struct timespec ts; clock_gettime(CLOCK_MONOTONIC, &ts); return ts.tv_sec + ts.tv_nsec * 1e-9; }
+static double now(void)
+{ struct timespec ts; clock_gettime(CLOCK_MONOTONIC, &ts); return ts.tv_sec + ts.tv_nsec * 1e-9; }
+
+static double now(void);
+
+/* M: McCoy yield-wait scenario (multi-worker shepherd 0).  M <Y yielders> <k main yields> <rescue seconds>
+ * Y tasks on shepherd 0 spin on qthread_yield() until `mflag`, which the main (REAL_MCCOY) task sets after
+ * yielding k times itself.  A rescue pthread sets the flag after <rescue> seconds so that the run always ends;
+ * `starved=1` means main did not get the worker back within that time. */
+static volatile int mflag, mrescued, mstop;
+static aligned_t    mstarted, mfinished, myields;
+static double       mrescue_after;
+static aligned_t myielder(void *a)
+{
+    qthread_incr(&mstarted, 1);
+    while (!mflag) { qthread_yield(); qthread_incr(&myields, 1); }
+    qthread_incr(&mfinished, 1);
+    return 0;
+}
+static void *mrescuer(void *a)
+{
+    double t0 = now();
+    while (!mstop) {
+        if (now() - t0 > mrescue_after && !mflag) { mrescued = 1; mflag = 1; }
+        usleep(2000);
+    }
+    return NULL;
+}
 
 static int mode_live(void)
 {
@@ -455,6 +484,39 @@ static int mode_live(void)
             printf(" DONE");
             if (live_audit()) printf(" AUDIT-BAD");
             printf("\n");
+            fflush(stdout);
+        } else if (line[0] == 'M') {
+            int Y = 2, k = 3; double resc = 10.0;
+            sscanf(line + 1, "%d %d %lf", &Y, &k, &resc);
+            mflag = 0; mrescued = 0; mstop = 0; mstarted = 0; mfinished = 0; myields = 0; mrescue_after = resc;
+            alarm((unsigned)(resc * 2 + 40));
+            for (int i = 0; i < Y; i++) qthread_fork_to(myielder, NULL, NULL, 0);
+            pthread_t rt;
+            pthread_create(&rt, NULL, mrescuer, NULL);
+            {   /* let the other workers of shepherd 0 pick yielders up before main starts to yield */
+                unsigned Wm = qthread_num_workers() / qthread_num_shepherds();
+                aligned_t need = (aligned_t)((unsigned)Y < Wm - 1 ? (unsigned)Y : Wm - 1);
+                while (mstarted < need) { __asm__ __volatile__ ("pause" ::: "memory"); }
+            }
+            double t0 = now(), maxlat = 0;
+            aligned_t maxbypass = 0;
+            for (int i = 0; i < k && !mrescued; i++) {
+                double a = now();
+                aligned_t y0 = myields;
+                qthread_yield();
+                double d = now() - a;
+                aligned_t by = myields - y0;      /* yields of the waiting tasks while main waited for its turn */
+                if (d > maxlat) maxlat = d;
+                if (by > maxbypass) maxbypass = by;
+            }
+            int starved = mrescued;
+            mflag = 1;
+            while (mfinished < (aligned_t)Y) qthread_yield();
+            mstop = 1;
+            pthread_join(rt, NULL);
+            alarm(0);
+            printf("M Y=%d k=%d starved=%d max_yield_latency=%.3f total=%.3f yielder_yields=%lu max_bypass=%lu\n", Y, k, starved, maxlat, now() - t0,
+                   (unsigned long)myields, (unsigned long)maxbypass);
             fflush(stdout);
         } else if (line[0] == 'N') {
             int K = 0, U = 0;
